@@ -47,12 +47,20 @@ type LitSpec struct { // fact: the literals and operators of a function body, in
 	Func string `json:"func"`
 	Lean string `json:"lean"`
 }
+type HasSpec struct { // fact: each given (whitespace-normalised) simple statement / case label occurs in the function body
+	Dir   string   `json:"dir"`
+	Root  string   `json:"root"`
+	Func  string   `json:"func"`
+	Stmts []string `json:"stmts"`
+	Lean  string   `json:"lean"`
+}
 type Spec struct {
 	Consts []ConstSpec `json:"consts"`
 	Funcs  []FuncSpec  `json:"funcs"`
 	Calls  []CallSpec  `json:"calls"`
 	Lits   []LitSpec   `json:"lits"`
 	Kernels []KernelSpec `json:"kernels"`
+	Has     []HasSpec    `json:"has"`
 }
 
 var roots = map[string]string{}
@@ -394,6 +402,47 @@ func genSection(section string, spec Spec, out string, d *strings.Builder) {
 	}
 	for _, ks := range spec.Kernels {
 		genKernel(loadPkg(ks.Root, ks.Dir), ks, &c)
+	}
+	for _, hs := range spec.Has {
+		p := loadPkg(hs.Root, hs.Dir)
+		fd := findFunc(p, hs.Func)
+		present := map[string]bool{}
+		norm := func(n ast.Node) string {
+			var buf bytes.Buffer
+			cfg := printer.Config{Mode: printer.RawFormat}
+			cfg.Fprint(&buf, token.NewFileSet(), n)
+			return strings.Join(strings.Fields(buf.String()), " ")
+		}
+		if fd != nil && fd.Body != nil {
+			ast.Inspect(fd.Body, func(n ast.Node) bool {
+				switch x := n.(type) {
+				case *ast.AssignStmt, *ast.ReturnStmt, *ast.IncDecStmt, *ast.ExprStmt, *ast.DeferStmt, *ast.GoStmt, *ast.SendStmt:
+					present[norm(n)] = true
+				case *ast.CaseClause:
+					if x.List == nil {
+						present["default:"] = true
+					} else {
+						parts := []string{}
+						for _, e := range x.List {
+							parts = append(parts, norm(e))
+						}
+						present["case "+strings.Join(parts, ", ")+":"] = true
+					}
+				case *ast.IfStmt:
+					present["if "+norm(x.Cond)] = true
+				}
+				return true
+			})
+		}
+		q := []string{}
+		for _, st := range hs.Stmts {
+			if present[strings.Join(strings.Fields(st), " ")] {
+				q = append(q, "true")
+			} else {
+				q = append(q, "false")
+			}
+		}
+		fmt.Fprintf(&c, "/-- does %s/%s contain each of: %s -/\ndef %s : List Bool := [%s]\n", hs.Dir, hs.Func, strings.ReplaceAll(strings.Join(hs.Stmts, " | "), "-/", "- /"), hs.Lean, strings.Join(q, ", "))
 	}
 	for _, ls := range spec.Lits {
 		p := loadPkg(ls.Root, ls.Dir)
